@@ -38,10 +38,11 @@ def select(elems, idx, default=None):
 # ====================================================================== Seq
 
 class Seq(Model):
-    def __init__(self, elems, n, kind='vec'):
+    def __init__(self, elems, n, kind='vec', lazy=None):
         self.elems = list(elems)
         self.n = zint(n)
         self.kind = kind
+        self.lazy = lazy      # callable(ip) -> fresh element, for sequences longer than their slots
 
     @staticmethod
     def concrete(vals, kind='vec'):
@@ -185,6 +186,65 @@ class Adaptor(Model):
             if variant_of(ip, ob) == 0:
                 return Adaptor(k, a, None, b), NONE
             return Adaptor(k, a, None, b), some(Agg(None, [oa.payload[1][0], ob.payload[1][0]]))
+        if k == 'map_while':
+            if self.inner2 == 'done':
+                return self, NONE
+            inner, o = yield from iter_next(ip, self.inner)
+            if variant_of(ip, o) == 0:
+                return Adaptor(k, inner, self.arg), NONE
+            r = yield from ip.call_closure(self.arg, [o.payload[1][0]])
+            if variant_of(ip, r) == 0:
+                return Adaptor(k, inner, self.arg, 'done'), NONE
+            return Adaptor(k, inner, self.arg), some(r.payload[1][0])
+        if k == 'take_while':
+            if self.inner2 == 'done':
+                return self, NONE
+            inner, o = yield from iter_next(ip, self.inner)
+            if variant_of(ip, o) == 0:
+                return Adaptor(k, inner, self.arg), NONE
+            v = o.payload[1][0]
+            keep = yield from ip.call_closure(self.arg, [Ref(Loc(Cell(v, 'tw-arg')))])
+            if ip.path.branch(keep.t, 'take_while'):
+                return Adaptor(k, inner, self.arg), some(v)
+            return Adaptor(k, inner, self.arg, 'done'), NONE
+        if k == 'skip_while':
+            inner = self.inner
+            if self.inner2 == 'done':
+                inner, o = yield from iter_next(ip, inner)
+                return Adaptor(k, inner, self.arg, 'done'), o
+            for _ in range(ip.unroll + 2):
+                inner, o = yield from iter_next(ip, inner)
+                if variant_of(ip, o) == 0:
+                    return Adaptor(k, inner, self.arg, 'done'), NONE
+                v = o.payload[1][0]
+                sk = yield from ip.call_closure(self.arg, [Ref(Loc(Cell(v, 'sw-arg')))])
+                if not ip.path.branch(sk.t, 'skip_while'):
+                    return Adaptor(k, inner, self.arg, 'done'), some(v)
+            raise OutOfBound('skip_while unrolling')
+        if k == 'filter_map':
+            inner = self.inner
+            for _ in range(ip.unroll + 2):
+                inner, o = yield from iter_next(ip, inner)
+                if variant_of(ip, o) == 0:
+                    return Adaptor(k, inner, self.arg), NONE
+                r = yield from ip.call_closure(self.arg, [o.payload[1][0]])
+                if variant_of(ip, r) == 1:
+                    return Adaptor(k, inner, self.arg), some(r.payload[1][0])
+            raise OutOfBound('filter_map unrolling')
+        if k == 'chain':
+            if self.inner is not None:
+                a, o = yield from iter_next(ip, self.inner)
+                if variant_of(ip, o) == 1:
+                    return Adaptor(k, a, None, self.inner2), o
+                b, o = yield from iter_next(ip, self.inner2)
+                return Adaptor(k, None, None, b), o
+            b, o = yield from iter_next(ip, self.inner2)
+            return Adaptor(k, None, None, b), o
+        if k == 'inspect':
+            inner, o = yield from iter_next(ip, self.inner)
+            if variant_of(ip, o) == 1:
+                yield from ip.call_closure(self.arg, [Ref(Loc(Cell(o.payload[1][0], 'inspect-arg')))])
+            return Adaptor(k, inner, self.arg), o
         if k == 'cloned':
             inner, o = yield from iter_next(ip, self.inner)
             if variant_of(ip, o) == 0:
@@ -494,8 +554,10 @@ def install(ctx):
         if not ip.path.branch(s.n > 0, 'pop_front'):
             return NONE
         if not s.elems:
-            raise Infeasible()
-        write_loc(r.loc, Seq(s.elems[1:], z3.simplify(s.n - 1), s.kind))
+            if s.lazy is None:
+                raise Infeasible()
+            s = Seq([s.lazy(ip)], s.n, s.kind, s.lazy)
+        write_loc(r.loc, Seq(s.elems[1:], z3.simplify(s.n - 1), s.kind, s.lazy))
         return some(s.elems[0])
 
     @M.reg('Vec::pop', 'VecDeque::pop_back')
@@ -568,6 +630,157 @@ def install(ctx):
     @M.reg('<Iterator>::filter')
     def it_filter(ip, pc, args, dt):
         return Adaptor('filter', as_window(ip, args[0]), args[1])
+
+    @M.reg('<Iterator>::map_while', '<Iterator>::take_while', '<Iterator>::skip_while', '<Iterator>::filter_map',
+           '<Iterator>::inspect')
+    def it_closure_adaptor(ip, pc, args, dt):
+        return Adaptor(pc['method'], as_window(ip, args[0]), args[1])
+
+    @M.reg('<Iterator>::chain')
+    def it_chain(ip, pc, args, dt):
+        return Adaptor('chain', as_window(ip, args[0]), None, as_window(ip, args[1]))
+
+    @M.reg('<Iterator>::rev')
+    def it_rev(ip, pc, args, dt):
+        it = as_window(ip, args[0])
+        s = yield from collect_seq(ip, it)
+        n = s.cn()
+        if n is None:
+            # symbolic length: reverse by index arithmetic
+            elems = [select(s.elems, z3.If(s.n - 1 - j >= 0, s.n - 1 - j, 0)) for j in range(len(s.elems))]
+            return Window(Seq(elems, s.n), 0, s.n)
+        return Window(Seq(list(reversed(s.elems[:n])), n), 0, n)
+
+    @M.reg('<Iterator>::for_each')
+    def it_for_each(ip, pc, args, dt):
+        it = as_window(ip, args[0])
+        for _ in range(ip.unroll + 2):
+            it, o = yield from iter_next(ip, it)
+            if variant_of(ip, o) == 0:
+                return UNIT
+            yield from ip.call_closure(args[1], [o.payload[1][0]])
+        raise OutOfBound('for_each unrolling')
+
+    @M.reg('<Iterator>::fold')
+    def it_fold(ip, pc, args, dt):
+        it = as_window(ip, args[0])
+        acc = args[1]
+        for _ in range(ip.unroll + 2):
+            it, o = yield from iter_next(ip, it)
+            if variant_of(ip, o) == 0:
+                return acc
+            acc = yield from ip.call_closure(args[2], [acc, o.payload[1][0]])
+        raise OutOfBound('fold unrolling')
+
+    @M.reg('<Iterator>::count')
+    def it_count(ip, pc, args, dt):
+        it = as_window(ip, args[0])
+        if isinstance(it, Window):
+            return S(z3.simplify(it.remaining()), 'usize')
+        s = yield from collect_seq(ip, it)
+        return s.length()
+
+    @M.reg('<Iterator>::any', '<Iterator>::all')
+    def it_any_all(ip, pc, args, dt):
+        r = args[0]
+        it = as_window(ip, read_loc(r.loc) if isinstance(r, Ref) else r)
+        is_any = pc['method'] == 'any'
+        for _ in range(ip.unroll + 2):
+            it, o = yield from iter_next(ip, it)
+            if variant_of(ip, o) == 0:
+                return bool_s(z3.BoolVal(not is_any))
+            t = yield from ip.call_closure(args[1], [o.payload[1][0]])
+            if ip.path.branch(t.t if is_any else z3.Not(t.t), 'any/all'):
+                if isinstance(r, Ref):
+                    write_loc(r.loc, it)
+                return bool_s(z3.BoolVal(is_any))
+        raise OutOfBound('any/all unrolling')
+
+    @M.reg('<Iterator>::find', '<Iterator>::position')
+    def it_find(ip, pc, args, dt):
+        r = args[0]
+        it = as_window(ip, read_loc(r.loc) if isinstance(r, Ref) else r)
+        pos = 0
+        for _ in range(ip.unroll + 2):
+            it, o = yield from iter_next(ip, it)
+            if variant_of(ip, o) == 0:
+                return NONE
+            v = o.payload[1][0]
+            arg = Ref(Loc(Cell(v, 'find-arg'))) if pc['method'] == 'find' else v
+            t = yield from ip.call_closure(args[1], [arg])
+            if ip.path.branch(t.t, 'find'):
+                if isinstance(r, Ref):
+                    write_loc(r.loc, it)
+                return some(v if pc['method'] == 'find' else mk_int(pos, 'usize'))
+            pos += 1
+        raise OutOfBound('find unrolling')
+
+    @M.reg('<Iterator>::last')
+    def it_last(ip, pc, args, dt):
+        s = yield from collect_seq(ip, as_window(ip, args[0]))
+        if not s.elems:
+            return NONE
+        return opt_sym(s.n > 0, select(s.elems, z3.If(s.n > 0, s.n - 1, 0)))
+
+    @M.reg('<Iterator>::nth')
+    def it_nth(ip, pc, args, dt):
+        r = args[0]
+        it = as_window(ip, read_loc(r.loc))
+        n = concrete_int(args[1].t)
+        if n is None:
+            raise Unsupported('nth with symbolic index')
+        o = NONE
+        for _ in range(n + 1):
+            it, o = yield from iter_next(ip, it)
+            if variant_of(ip, o) == 0:
+                break
+        write_loc(r.loc, it)
+        return o
+
+    @M.reg('Vec::drain', 'VecDeque::drain')
+    def vec_drain(ip, pc, args, dt):
+        r, rng = args
+        s = read_loc(r.loc)
+        if getattr(rng, 'name', None) == 'RangeFull':
+            write_loc(r.loc, Seq.empty(s.kind))
+            return Window(s, 0, s.n)
+        raise Unsupported('drain of a sub-range')
+
+    @M.reg('VecDeque::push_front')
+    def push_front(ip, pc, args, dt):
+        r, v = args
+        s = read_loc(r.loc)
+        write_loc(r.loc, Seq([v] + s.elems, z3.simplify(s.n + 1), s.kind, s.lazy))
+        return UNIT
+
+    @M.reg('VecDeque::front', 'VecDeque::back', '[T]::last', 'Vec::last')
+    def front_back(ip, pc, args, dt):
+        s = seq_at(args[0])
+        if not s.elems:
+            return NONE
+        if pc['method'] == 'front':
+            return opt_sym(s.n > 0, Ref(Loc(Cell(s.elems[0], 'front'))))
+        return opt_sym(s.n > 0, Ref(Loc(Cell(select(s.elems, z3.If(s.n > 0, s.n - 1, 0)), 'back'))))
+
+    @M.reg('Vec::truncate', 'VecDeque::truncate')
+    def truncate(ip, pc, args, dt):
+        r, k = args
+        s = read_loc(r.loc)
+        write_loc(r.loc, Seq(s.elems, z3.simplify(z3.If(k.t < s.n, k.t, s.n)), s.kind))
+        return UNIT
+
+    @M.reg('Vec::append', 'VecDeque::append')
+    def vec_append(ip, pc, args, dt):
+        r, o = args
+        other = read_loc(o.loc)
+        it = Window(other, 0, other.n)
+        write_loc(o.loc, Seq.empty(other.kind))
+        for _ in range(ip.unroll + 2):
+            it, x = yield from iter_next(ip, it)
+            if variant_of(ip, x) == 0:
+                return UNIT
+            write_loc(r.loc, read_loc(r.loc).push(x.payload[1][0]))
+        raise OutOfBound('append unrolling')
 
     @M.reg('<Iterator>::zip')
     def it_zip(ip, pc, args, dt):
